@@ -6,6 +6,19 @@ use refpeg::{Grammar, Kind, Node};
 use std::fmt::Write;
 
 /// Option sets for C20 (label, attributes).
+#[cfg(feature = "extras")]
+pub const VARIANTS: [(&str, &str); 8] = [
+    ("boxifneeded", "#[box_only_if_needed]"),
+    ("noref", "#[emit_rule_reference = false]"),
+    ("tagged", "#[emit_tagged_node_reference]"),
+    ("nospan", "#[do_not_emit_span]"),
+    ("nowarn", "#[no_warnings]"),
+    ("allon", "#[box_only_if_needed] #[emit_rule_reference] #[emit_tagged_node_reference] #[do_not_emit_span] #[no_warnings] #[simulate_pair_api]"),
+    ("noopt", "#[pest_optimizer = false] #[emit_rule_reference]"),
+    ("notrunc", "#[emit_rule_reference] #[emit_tagged_node_reference] #[truncate_getter_at_node_tag = false] #[no_warnings]"),
+];
+
+#[cfg(not(feature = "extras"))]
 pub const VARIANTS: [(&str, &str); 7] = [
     ("boxifneeded", "#[box_only_if_needed]"),
     ("noref", "#[emit_rule_reference = false]"),
@@ -162,7 +175,7 @@ impl<'g> W<'g> {
                 self.walk(x, &e, ind + 1);
                 let _ = writeln!(self.out, "{pad}}} }}");
             }
-            Node::Rep(x) => {
+            Node::Rep(x) | Node::RepOnce(x) => {
                 let it = self.fresh();
                 let e = self.fresh();
                 let idx = self.fresh();
@@ -181,8 +194,9 @@ impl<'g> W<'g> {
             Node::Skip(_) => {
                 let _ = writeln!(self.out, "{pad}harness::walk::skip_until({var}, w);");
             }
-            // raw-AST forms never reach the walker (default option set only)
-            Node::RepOnce(_) | Node::RepExact(..) | Node::RepMin(..) | Node::RepMax(..) | Node::RepMinMax(..) => {}
+            // raw-AST forms never reach the walker (default option set only; `e+` is kept as RepOnce
+            // by the grammar-extras configuration and has the accessors of `e*`)
+            Node::RepExact(..) | Node::RepMin(..) | Node::RepMax(..) | Node::RepMinMax(..) => {}
         }
     }
 }
@@ -294,11 +308,26 @@ pub fn shard_bin(mods: &[String], ids: &[String]) -> String {
     let mut o = String::new();
     let _ = writeln!(o, "// @generated by vgen; do not edit.");
     let _ = writeln!(o, "#![allow(unused, non_snake_case, non_camel_case_types, clippy::all)]");
+    let entries = ids.iter().map(|i| format!("{}::entry()", i)).collect::<Vec<_>>().join(", ");
+    if cfg!(feature = "extras") {
+        // shards of the grammar-extras configuration only make sense with that feature on
+        let _ = writeln!(o, "#[cfg(feature = \"extras\")]\nmod x {{");
+        for m in mods {
+            o.push_str(m);
+        }
+        let _ = writeln!(o, "pub fn main() {{");
+        let _ = writeln!(o, "    let entries = vec![{}];", entries);
+        let _ = writeln!(o, "    harness::main_with(entries);");
+        let _ = writeln!(o, "}}\n}}");
+        let _ = writeln!(o, "#[cfg(feature = \"extras\")]\nfn main() {{ x::main() }}");
+        let _ = writeln!(o, "#[cfg(not(feature = \"extras\"))]\nfn main() {{ eprintln!(\"built without the extras feature\"); std::process::exit(2) }}");
+        return o;
+    }
     for m in mods {
         o.push_str(m);
     }
     let _ = writeln!(o, "fn main() {{");
-    let _ = writeln!(o, "    let entries = vec![{}];", ids.iter().map(|i| format!("{}::entry()", i)).collect::<Vec<_>>().join(", "));
+    let _ = writeln!(o, "    let entries = vec![{}];", entries);
     let _ = writeln!(o, "    harness::main_with(entries);");
     let _ = writeln!(o, "}}");
     o
